@@ -249,6 +249,41 @@ def applyUse (g : Globals) (u : Use) : Globals :=
 /-- the gain a VR instance with `mult = m` really gets: that of the tables as they are after its `vr_init` -/
 def vrEffective (g : Globals) (m : Nat) : Nat := ((useVr g m).vrMult).getD m
 
+/-! #### the three VR tables behind ONE guard
+
+`vr_init` fills `fade_coefs`, `poly_fir_coefs_u` and `poly_fir_coefs_d` inside one block guarded by `fade_coefs[0]==0`,
+unconditionally, from `mult` and compile-time constants (`vr_init_block_match`, generated from the text of vr32.c).  The
+first VR instance of the process runs the block; its OTHER parameters (number of halving stages, i.e. whether it only ever
+up-samples; default ratio) must not matter for the CONTENT of any table, and no table may be left unbuilt because the
+first instance does not happen to need it: a later instance of another ratio class reads it. -/
+
+/-- the parameters `vr_init` is called with -/
+structure VrParams where
+  mult : Nat
+  stages0 : Nat          -- halving stages needed for the maximum ratio (0: never down-samples)
+  ratio : Nat            -- default_io_ratio
+  deriving DecidableEq, Repr
+
+/-- each table: `none` = still all-zero, `some m` = built with gain `m` -/
+structure VrTables where
+  fade : Option Unit
+  u : Option Nat
+  d : Option Nat
+  deriving DecidableEq, Repr
+
+/-- the guarded block as it is in vr32.c: all three tables, from `mult` only -/
+def vrBuild (p : VrParams) : VrTables := { fade := some (), u := some p.mult, d := some p.mult }
+
+/-- `vr_init` on the process-wide tables: the block runs iff `fade_coefs` is still zero -/
+def vrInit (t : Option VrTables) (p : VrParams) : Option VrTables := some (t.getD (vrBuild p))
+
+/-- what a VR instance with parameters `p` gets to work with after its own `vr_init` -/
+def vrSeen (t : Option VrTables) (p : VrParams) : VrTables := (vrInit t p).getD (vrBuild p)
+
+theorem vr_init_block_match :
+    Generated.vrInitBlockParams = ["mult"] ∧ Generated.vrInitBlockConditional = false ∧ Generated.vrInitBlockTablesBuilt = 3 := by
+  decide
+
 /-- what a length-`n` transform reads: entry `i` of tables currently built for length `N` (`read N n i`) -/
 structure FftTables (τ : Type) where
   read : (N n i : Nat) → τ
